@@ -74,6 +74,15 @@ func isSystemName(name string) bool {
 	return strings.HasPrefix(name, reservedNamesPrefix)
 }
 
+// isRelocationWorkerName reports whether name belongs to a relocation worker.
+// Relocation workers are short-lived system actors: they stop themselves once
+// their rebalance is done and are stopped by their supervisor when they panic,
+// so, unlike the long-lived system actors, they must remain stoppable while
+// the system is running.
+func isRelocationWorkerName(name string) bool {
+	return strings.HasPrefix(name, reservedNames[relocationWorkerType]+"-")
+}
+
 // isReliableDeliveryControllerName reports whether name belongs to one of the
 // reserved reliable-delivery controller namespaces.
 func isReliableDeliveryControllerName(name string) bool {
